@@ -153,6 +153,40 @@ def kwSpec : Cls → List FlagSpec
     [⟨"relu_shift", .always, .str⟩, ⟨"relu_upper_bound", .always, .str⟩, ⟨"alpha", .truthy, .alpha⟩,
      ⟨"use_stochastic_rounding", .truthy, .int⟩, ⟨"scale_axis", .notNone, .intOrList⟩]
 
+/-- names of the options `__str__` can express -/
+def printedNames (c : Cls) : List String := (posSpec c).map (·.name) ++ (kwSpec c).map (·.name)
+
+/-- constructor parameters no statement of `__str__` mentions: the text cannot denote them, the
+    rebuilt quantizer always gets the constructor default (`qnoise_factor`, `var_name`,
+    `use_variables`, `post_training_scale`) -/
+def unprinted (c : Cls) : List String := (paramNames c).filter fun k => !(printedNames c).contains k
+
+/-- the condition in front of a `flags.append` is anchored at the value `d` (the constructor
+    default of THIS class): it does not hold at `d`; a `!= c` test compares with a value `==` `d`
+    (not with the default of a sibling class that shares the printing code); an `if not x:` flag
+    has default `True`; an `is not None` option has default `None`. -/
+def Cond.anchored (d : PyVal) : Cond → Bool
+  | .always => true
+  | .truthy => !d.truthy
+  | .falsy => d.numVal == some 1
+  | .notNone => d.isNone
+  | .ne c => c.pyEq d
+
+/-- option values for which a truthiness test (`if self.x:` / `if not self.x:`) decides "is the
+    default": flags (bool / 0 / 1), numbers, or `None`-or-truthy for an option whose default is
+    `None`.  The tests `is not None` and `!= c` need no such restriction. -/
+def Cond.kindOK (d : PyVal) : Cond → PyVal → Bool
+  | .truthy, v => v.truthy || (if d.isNone then v.isNone else d.numVal.isSome && v.numVal.isSome)
+  | .falsy, v => !v.truthy || v.numVal == some 1
+  | _, _ => true
+
+def Cond.tag : Cond → String
+  | .always => "always"
+  | .truthy => "truthy"
+  | .falsy => "falsy"
+  | .notNone => "notNone"
+  | .ne _ => "ne"
+
 def mkFlag (key : Option String) (s : FlagSpec) (v : PyVal) : Except Err Flag :=
   match s.conv.apply v with
   | .ok r => .ok ⟨key, r.1, r.2⟩
